@@ -310,7 +310,28 @@ func multiExecCase(k *engine.Case) {
 		}
 	}
 	close(start)
-	wg.Wait()
+	done := make(chan struct{})
+	go func() { wg.Wait(); close(done) }()
+	quiet := 0
+wait:
+	for {
+		select {
+		case <-done:
+			break wait
+		case <-time.After(2 * time.Millisecond):
+			// no timers are involved: if every goroutine is parked and callers are still
+			// waiting, nothing will ever move again
+			if Q.IsQuiet() {
+				quiet++
+				if quiet >= 3 {
+					k.Fail("caller-stuck", "%d executors with %d callers each: every goroutine is parked but callers are still waiting for their calls (first problem reported so far: %q): %v", ne, callers, first, Q.Describe())
+					return
+				}
+			} else {
+				quiet = 0
+			}
+		}
+	}
 	for _, ex := range exs {
 		ex.Stop()
 		ex.WaitDone()
